@@ -8,6 +8,7 @@ import (
 	"net/http"
 	"net/url"
 	"strings"
+	"sync"
 	"time"
 
 	"github.com/vulcand/oxy/v2/forward"
@@ -200,6 +201,8 @@ var reqShapes = []reqShape{
 }
 
 type c16world struct {
+	evMu     sync.Mutex
+	evCount  map[int]int   // notifications ever received, by state (never reset: overlapping exchanges)
 	panicOn  int           // the user's listener callback panics once on this notification (-1: never)
 	watchdog time.Duration // 0: 30s
 	stalling bool          // the current script contains a stall: use the forwarder with the short response-header timeout
@@ -212,7 +215,7 @@ type c16world struct {
 }
 
 func newC16World() *c16world {
-	w := &c16world{backend: NewBackend()}
+	w := &c16world{backend: NewBackend(), evCount: map[int]int{}}
 	w.url = &url.URL{Scheme: "http", Host: w.backend.Addr}
 	// two forwarders: the response-header timeout of 150ms is part of the STALL scenarios only; every other
 	// exchange runs with a 20s timeout so that a loaded machine cannot turn a healthy relay into a 504
@@ -231,6 +234,9 @@ func newC16World() *c16world {
 	w.panicOn = -1
 	w.proxy = forward.NewStateListener(inner, func(u *url.URL, state int) {
 		w.events = append(w.events, state)
+		w.evMu.Lock()
+		w.evCount[state]++
+		w.evMu.Unlock()
 		if state == w.panicOn {
 			w.panicOn = -1
 			panic("listener callback failed")
@@ -574,11 +580,14 @@ func runSpecials(w *c16world, rep *lib.Report) {
 		a := respScript{200, 0, 96 * 1024, "content-length", false, 3}
 		b := respScript{201, 0, 80 * 1024, "chunked", false, 11}
 		cv := &clientView{h: http.Header{}, stallAt: stallAt, stalled: make(chan struct{}), resume: make(chan struct{})}
+		w.evMu.Lock()
+		c0, d0 := w.evCount[forward.StateConnected], w.evCount[forward.StateDisconnected]
+		w.evMu.Unlock()
 		w.backend.Drain()
 		w.stalling = false
 		w.backend.Play(a.steps())
 		ctx := context.WithValue(context.Background(), http.ServerContextKey, &http.Server{})
-		pa, _ := lib.ParseRequest(lib.RawRequest("GET", "/a", nil, nil, 0))
+		pa, _ := lib.ParseRequest(lib.RawRequest("GET", "/x?y=1", nil, nil, 0)) // the very same target as B's request
 		doneA := make(chan any, 1)
 		go func() {
 			defer func() { doneA <- recover() }()
@@ -612,7 +621,14 @@ func runSpecials(w *c16world, rep *lib.Report) {
 		case oB.code != 201 || !bytes.Equal(oB.body, payloadS(b.size, b.salt)):
 			rep.Violate("C16:body-altered:overlapping-exchanges", fmt.Sprintf("client B (served while A was stalled at write %d) got status %d and %d bytes that are not its backend's %d bytes", stallAt, oB.code, len(oB.body), b.size), wa)
 		default:
-			rep.Count("overlapping_exchanges")
+			w.evMu.Lock()
+			c1, d1 := w.evCount[forward.StateConnected]-c0, w.evCount[forward.StateDisconnected]-d0
+			w.evMu.Unlock()
+			if c1 != 2 || d1 != 2 {
+				rep.Violate("C16:listener-events-unpaired:overlapping-exchanges", fmt.Sprintf("two overlapping exchanges to the same backend URL: %d 'connected' and %d 'disconnected' notifications (want 2 and 2)", c1, d1), wa)
+			} else {
+				rep.Count("overlapping_exchanges")
+			}
 		}
 	}
 	// client goes away while the backend stalls
